@@ -143,7 +143,10 @@ def mpi_sanitized(out, vh_asan, vh_plain, wdir, seed, tier):
     for (tool, vh, np_, lo, hi, env) in runs:
         tag = "mpi.%s.np%d" % (tool, np_)
         odir = os.path.join(wdir, tag + ".stderr")
-        res = mpirun.launch(vh, "par", np_, seed, "quick", lo, hi, wdir, tag, env, 1500 if tool == "memcheck" else 600, mpiexec_args=["--output-filename", odir])
+        # memcheck: definedness does not cross process boundaries through shared memory, so the TCP transport is used: a send of
+        # uninitialised user data then shows up as "Syscall param ... points to uninitialised byte(s)"
+        margs = ["--output-filename", odir] + (["--mca", "btl", "tcp,self", "--mca", "btl_tcp_if_include", "lo"] if tool == "memcheck" else [])
+        res = mpirun.launch(vh, "par", np_, seed, "quick", lo, hi, wdir, tag, env, 1500 if tool == "memcheck" else 600, mpiexec_args=margs)
         ncases = len(res["ranks"][0][0])
         out.counters["mpi_%s_cases" % tool] = out.counters.get("mpi_%s_cases" % tool, 0) + ncases
         if res["timed_out"]:
